@@ -907,6 +907,10 @@ func (vc *VC) execFor(s *State, x *ast.ForStmt, label string) {
 	}
 	tgt := &jumpTarget{label: label, isLoop: true}
 	fr.targets = append(fr.targets, tgt)
+	var iterStart *State
+	if ls != nil && len(ls.Steps) > 0 {
+		iterStart = body.clone()
+	}
 	vc.execBlock(body, x.Body.List)
 	fr.targets = fr.targets[:len(fr.targets)-1]
 	back := vc.mergeStates(append([]*State{body}, tgt.continues...))
@@ -915,6 +919,13 @@ func (vc *VC) execFor(s *State, x *ast.ForStmt, label string) {
 			vc.execStmt(back, x.Post, "")
 		}
 		vc.checkInvariants(back, x, ls, path, "step", entry, nil)
+		if iterStart != nil {
+			env := vc.loopEnv(back, x, path, entry)
+			env.pre = iterStart
+			for i, st := range ls.Steps {
+				vc.obligeKeep(back, "step", fmt.Sprintf("loop%s:step%d", path, i+1), "loop transition: "+st.Src, x.Pos(), env.evalBool(st))
+			}
+		}
 		if dec0 != nil {
 			d1 := vc.loopEnv(back, x, path, entry).eval(ls.Decreases).T
 			vc.oblige(back, "decreases", "loop"+path, "loop variant decreases and is bounded: "+ls.Decreases.Src, x.Pos(), And(Ge(dec0, IntLit(0)), Lt(d1, dec0)))
